@@ -39,6 +39,10 @@ type Case struct {
 	Sen bool `json:"sen,omitempty"`
 	// Spell: how floats are spelled in the text (see spellFloat)
 	Spell int `json:"spell,omitempty"`
+	// BOM: the streamed text starts with a byte order mark (the readers join their first reads
+	// so that a mark is not split; BomRead is the size of the reads it then arrives in)
+	BOM     bool `json:"bom,omitempty"`
+	BomRead int  `json:"bomread,omitempty"`
 }
 
 func TestMain(m *testing.M) {
@@ -472,6 +476,14 @@ func Run(cs Case, c *vrt.Ctx) {
 		stext = writeSEN(doc, cs.Reverse, cs.Spell)
 		c.Class("sen-notation")
 	}
+	if cs.BOM {
+		text = "\xef\xbb\xbf" + text
+		stext = "\xef\xbb\xbf" + stext
+		c.Class("byte-order-mark")
+		if cs.BomRead > 0 {
+			cs.Chunk = gx.Chunking{Sizes: []int{cs.BomRead}}
+		}
+	}
 	// parse-then-locate: the tree the text denotes (a float written without a fraction part is
 	// read as an integer; C02 decides the parser)
 	if parsed, err := oj.ParseString(text); err != nil {
@@ -609,7 +621,11 @@ func Run(cs Case, c *vrt.Ctx) {
 		{"sen.Match", func(cb func(jp.Expr, any)) error { return sen.Match([]byte(stext), cb, targets...) }},
 		{"sen.MatchString", func(cb func(jp.Expr, any)) error { return sen.MatchString(stext, cb, targets...) }},
 		{"sen.MatchLoad", func(cb func(jp.Expr, any)) error {
-			return sen.MatchLoad(gx.Chunking{Sizes: []int{1 + len(stext)%5}}.Reader([]byte(stext)), cb, targets...)
+			size := 1 + len(stext)%5
+			if cs.BomRead > 0 {
+				size = cs.BomRead
+			}
+			return sen.MatchLoad(gx.Chunking{Sizes: []int{size}}.Reader([]byte(stext)), cb, targets...)
 		}},
 	} {
 		var got []hit
@@ -805,6 +821,10 @@ func drawCase(t *rapid.T) Case {
 		}
 	}
 	cs.Chunk = gx.DrawChunking(t, len(text), cuts)
+	if rapid.IntRange(0, 7).Draw(t, "bom") == 0 {
+		cs.BOM = true
+		cs.BomRead = rapid.SampledFrom([]int{0, 1, 2, 3, 4, 5}).Draw(t, "bomread")
+	}
 	return cs
 }
 
